@@ -645,6 +645,14 @@ func (s *Server) read(ch receiver) {
 			rpcRequestsCount.Add(int64(len(in)))
 		}
 		s.mu.Lock()
+		if s.ch == nil {
+			// The server was stopped while this reader was waiting for input
+			// (possible when closing the channel does not unblock Recv).
+			// Whatever arrived must be neither queued nor answered: the wakeup
+			// channel is closed and there is no channel to reply on.
+			s.mu.Unlock()
+			return
+		}
 		if err != nil { // receive failure; shut down
 			s.stopLocked(err)
 			s.mu.Unlock()
